@@ -144,6 +144,11 @@ func (v *p2variant) apply(m c19Mut) {
 	switch m.Field {
 	case "main.slice_size":
 		v.sliceSize = valueOf(m.Value, c19S, 0)
+	case "main.slice_size_1pair":
+		v.sliceSize = valueOf(m.Value, 64, 0) // f+4 -> 68: larger than every file
+		for _, f := range v.files {
+			f.pairs = f.pairs[:1]
+		}
 	case "main.nrecv":
 		v.nrecv = uint32(valueOf(m.Value, uint64(len(v.files)), 0))
 	case "fd.length":
@@ -425,6 +430,16 @@ func loadC19Cases(path string) ([]c19Case, error) {
 	return out, sc.Err()
 }
 
+func crashText(verr, vtext, rerr, rtext string) string {
+	if verr == "panic" {
+		return tail(vtext, 60)
+	}
+	if rerr == "panic" {
+		return tail(rtext, 60)
+	}
+	return ""
+}
+
 func needs(fmtName, data string, prot map[string][]byte) int {
 	if data != "one" {
 		return 0
@@ -601,14 +616,15 @@ func runC19Case(dir string, cs c19Case, prot map[string][]byte, a1 *arch1) (trac
 	return tracelog.M{"ev": "mutant", "fmt": fmtName, "muts": cs.Muts, "valid": cs.Valid, "data": cs.Data, "present_kb": present/1024 + 1, "declared_slice": fmt.Sprint(declaredSlice),
 		"declared_kb_capped": int64(dkb), "nblocks": nblocks, "needs": needs(fmtName, cs.Data, prot), "oom": false,
 		"verify": tracelog.M{"err": verr, "errtext": tail(vtext, 120), "needed": needed}, "repair": tracelog.M{"err": rerr, "errtext": tail(rtext, 120), "repaired": repaired},
-		"written": written, "outside": outside, "restored": restored, "fatal": false, "ms": ms, "rss_growth_kb": growth}, nil
+		"written": written, "outside": outside, "restored": restored, "fatal": false, "ms": ms, "rss_growth_kb": growth,
+		"crash_text": crashText(verr, vtext, rerr, rtext)}, nil
 }
 
 // declaredKBOf: the slice size a case declares (KiB, capped at 2^20), for cases that killed their worker
 func declaredKBOf(cs c19Case) int64 {
 	kb := uint64(c19S) / 1024
 	for _, m := range cs.Muts {
-		if m.Field == "main.slice_size" {
+		if m.Field == "main.slice_size" || m.Field == "main.slice_size_1pair" {
 			kb = valueOf(m.Value, c19S, 0) / 1024
 		}
 	}
@@ -682,7 +698,7 @@ func runC19(args []string) error {
 			"fatal": true, "fatal_detail": detail, "timeout": res.timeout[i], "present_kb": 1, "declared_slice": "?", "declared_kb_capped": declaredKBOf(cases[i]),
 			"oom": strings.Contains(detail, "out of memory") || strings.Contains(detail, "cannot allocate"), "nblocks": 0, "needs": 0,
 			"verify": tracelog.M{"err": "fatal", "errtext": detail, "needed": false}, "repair": tracelog.M{"err": "fatal", "errtext": detail, "repaired": []string{}},
-			"written": []string{}, "outside": []string{}, "restored": false, "ms": 0, "rss_growth_kb": 0})
+			"written": []string{}, "outside": []string{}, "restored": false, "ms": 0, "rss_growth_kb": 0, "crash_text": "fatal"})
 	}
 	if len(res.flaky) > 0 {
 		fmt.Fprintf(os.Stderr, "note: %d case(s) killed a batch worker once but passed alone: %v\n", len(res.flaky), res.flaky)
